@@ -554,3 +554,48 @@ def rule_py_derived_node_mix(rep, floor=3):
     if n < 2:
         raise AnalysisError("only %d derived nodes whose pieces are read found" % n)
     return r.done()
+
+
+def rule_py_shortcut_agrees(rep, floor=1):
+    r = rep.rule("GUARD.py-shortcut-agrees", "a shortcut `if not any(P(x) for x in xs): return ...` in front of a loop over the same `xs` that treats exactly the items with P'(x) (`for .. x in xs: if P'(x): ...`) uses the same "
+                 "predicate: where the shortcut's P is narrower than the loop's P' (indexedoptiontypes for all option types), inputs that the loop would have treated return untouched "
+                 "(flatten(axis=0) kept the None of a ByteMaskedArray inside a union)", floor=floor)
+    n = 0
+
+    def norm(test, var):
+        t = ast.unparse(test)
+        return re.sub(r"\b%s\b" % re.escape(var), "_", t)
+    for rel in _mods():
+        m = pf.module(rel)
+        for fn in _funcs(m.tree):
+            occ = 0
+            for blk in _blocks(fn.body):
+                for i, s in enumerate(blk):
+                    if not (isinstance(s, ast.If) and isinstance(s.test, ast.UnaryOp) and isinstance(s.test.op, ast.Not) and isinstance(s.test.operand, ast.Call) and isinstance(s.test.operand.func, ast.Name)
+                            and s.test.operand.func.id == "any" and s.test.operand.args and isinstance(s.test.operand.args[0], ast.GeneratorExp) and any(isinstance(x, ast.Return) for x in s.body)):
+                        continue
+                    g = s.test.operand.args[0]
+                    if len(g.generators) != 1 or not isinstance(g.generators[0].target, ast.Name) or g.generators[0].ifs:
+                        continue
+                    xs = ast.unparse(g.generators[0].iter)
+                    P = norm(g.elt, g.generators[0].target.id)
+                    for t in blk[i + 1:]:
+                        if not isinstance(t, ast.For):
+                            continue
+                        it = t.iter
+                        var = None
+                        if ast.unparse(it) == xs and isinstance(t.target, ast.Name):
+                            var = t.target.id
+                        elif isinstance(it, ast.Call) and isinstance(it.func, ast.Name) and it.func.id == "enumerate" and it.args and ast.unparse(it.args[0]) == xs and isinstance(t.target, ast.Tuple) and len(t.target.elts) == 2 and isinstance(t.target.elts[1], ast.Name):
+                            var = t.target.elts[1].id
+                        if var is None or not (t.body and isinstance(t.body[0], ast.If) and len(t.body) == 1):
+                            continue
+                        n += 1
+                        occ += 1
+                        P2 = norm(t.body[0].test, var)
+                        r.check(P == P2, "%s:%s#shortcut%d" % (rel, fn.name, occ), m.where(s), "%s: %s returns early unless any item satisfies `%s`, but the loop that follows treats the items with `%s`" % (rel, fn.name, P[:60], P2[:60]),
+                                detail="same predicate")
+                        break
+    if n < 1:
+        raise AnalysisError("no shortcut in front of a filtering loop found (the union arm of flatten(axis=0) has one)")
+    return r.done()
